@@ -255,6 +255,23 @@ theorem C07_chain_write_frame_reachable (v4 : Bool) (ops : List Phys.GOp) :
       Phys.chainBytes p' lr = Phys.chainBytes (Phys.grun g0 ops).p lr :=
   Phys.chain_write_frame_reachable v4 ops
 
+/-- non-vacuity of the reachable-state theorems: a history that leaves two small streams (slots 1 and 2, 100
+and 200 bytes, starting at mini sectors 0 and 2) and one of 5000 bytes meets the hypotheses; the chains the
+theorems ask for exist by `lengths_reachable` (`MiniLen`, `RegLen`) -/
+def exOps7 : List Phys.GOp :=
+  [.create 1, .resize 1 100, .create 2, .resize 2 200, .create 3, .resize 3 5000]
+
+example : Phys.WritesInRange { p := Phys.create false, L := fun _ => 0 } exOps7 ∧
+    Phys.MiniBounded { p := Phys.create false, L := fun _ => 0 } exOps7 ∧
+    (Phys.grun { p := Phys.create false, L := fun _ => 0 } exOps7).p.fat.size ≤ Raw.MAXREG + 1 :=
+  ⟨Phys.writesInRange_of_B _ _ (by decide +kernel), Phys.miniBounded_of_B _ _ (by decide +kernel), by decide +kernel⟩
+
+example : (1, 0) ∈ (Phys.grun { p := Phys.create false, L := fun _ => 0 } exOps7).p.starts ∧
+    (2, 2) ∈ (Phys.grun { p := Phys.create false, L := fun _ => 0 } exOps7).p.starts ∧
+    (Phys.grun { p := Phys.create false, L := fun _ => 0 } exOps7).L 1 = 100 ∧
+    (Phys.grun { p := Phys.create false, L := fun _ => 0 } exOps7).L 2 = 200 ∧
+    (Phys.grun { p := Phys.create false, L := fun _ => 0 } exOps7).L 3 = 5000 := by decide +kernel
+
 /-- non-vacuity: a version-3 file whose mini stream is the one-sector chain [2] (eight mini sectors);
 the mini chain [5, 1, 6] of a 150-byte stream, 100 bytes written across two mini-sector boundaries
 at offset 40; the mini chain [0, 7] belongs to another stream.  The write and the read-back are
